@@ -13,6 +13,8 @@ def parseKind : Sexp → Option Kind
   | .atom "s" => some .shallow
   | .atom "u" => some .udata
   | .atom "f" => some .code
+  | .atom "a" => some .aarr
+  | .atom "U" => some .uarr
   | _ => none
 
 def parseObj : Sexp → Option Obj
